@@ -1293,30 +1293,30 @@ func TestCheck(t *testing.T) {
 		nCorpus := len(cases)
 		r := vh.NewRand(env.Seed)
 		nInst := 110
-		for i, n := 0, env.N(280, 6); i < n; i++ {
+		for i, n := 0, env.N(240, 6); i < n; i++ {
 			cases = append(cases, genContainsCase(r.Fork(), nInst))
 		}
-		cases = append(cases, genParseCases(r.Fork(), env.N(300, 10))...)
-		for i, n := 0, env.N(60, 10); i < n; i++ {
+		cases = append(cases, genParseCases(r.Fork(), env.N(300, 5))...)
+		for i, n := 0, env.N(60, 3); i < n; i++ {
 			dim := r.Range(28, 31)
 			cases = append(cases, Case{Kind: "clamp", Clamp: []int{r.Range(-35, 35), -dim, dim}})
 		}
-		for i, n := 0, env.N(400, 10); i < n; i++ {
+		for i, n := 0, env.N(300, 6); i < n; i++ {
 			cases = append(cases, genMutesCase(r.Fork()))
 		}
-		for i, n := 0, env.N(600, 10); i < n; i++ {
+		for i, n := 0, env.N(400, 6); i < n; i++ {
 			cases = append(cases, genStageCase(r.Fork()))
 		}
-		for i, n := 0, env.N(90, 10); i < n; i++ {
+		for i, n := 0, env.N(90, 6); i < n; i++ {
 			cases = append(cases, genSysCase(r.Fork()))
 		}
-		for i, n := 0, env.N(150, 10); i < n; i++ {
+		for i, n := 0, env.N(150, 4); i < n; i++ {
 			cases = append(cases, genCfgCase(r.Fork()))
 		}
-		for i, n := 0, env.N(300, 10); i < n; i++ {
+		for i, n := 0, env.N(300, 6); i < n; i++ {
 			cases = append(cases, genMutesSeqCase(r.Fork()))
 		}
-		for i, n := 0, env.N(300, 10); i < n; i++ {
+		for i, n := 0, env.N(300, 6); i < n; i++ {
 			cases = append(cases, genStageSeqCase(r.Fork()))
 		}
 		// spread the heavy contains cases evenly over the shards (the order is still a function of the seed)
